@@ -2996,6 +2996,1232 @@ def gen_f64(read_):
     return {"SrcF64.lean": "\n".join(L) + "\n"}
 
 
+# =============================================================================================
+# Part 4 (third extension): the `Function` front ends of every rules crate (sequential and
+# multi-threaded copy), the cache keys of the BCDD / ZBDD / MTBDD / TDD rules, the `apply_ite`
+# prologues of TDD / MTBDD / ZBDD, the order of the manager hooks in `gc` / `reorder` / `add_*vars*`.
+# Same rules as parts 2 and 3: never exit, never skip; `…Unparsed` lists.
+# =============================================================================================
+
+# ---- front ends: `impl <Trait> for <Kind>Function` / `<Kind>FunctionMT` ------------------------------
+
+FE_KINDS = [("bdd", "crates/oxidd-rules-bdd/src/simple/apply_rec.rs", "BDDFunction"),
+            ("bcdd", "crates/oxidd-rules-bdd/src/complement_edge/apply_rec.rs", "BCDDFunction"),
+            ("zbdd", "crates/oxidd-rules-zbdd/src/apply_rec.rs", "ZBDDFunction"),
+            ("mtbdd", "crates/oxidd-rules-mtbdd/src/apply_rec.rs", "MTBDDFunction"),
+            ("tdd", "crates/oxidd-rules-tdd/src/apply_rec.rs", "TDDFunction")]
+FE_SKIP_TRAITS = ("From", "DotStyle", "")
+FE_IDENTITY_METHODS = ("borrowed", "into_edge", "borrow", "clone", "unwrap")
+
+
+def skip_angles(s, i):
+    """index after the balanced `<...>` opening at s[i] == '<' (`->` / `=>` do not close)"""
+    depth = 0
+    while i < len(s):
+        c = s[i]
+        if c == "<":
+            depth += 1
+        elif c == ">" and s[i - 1] not in "-=":
+            depth -= 1
+            if depth == 0:
+                return i + 1
+        i += 1
+    raise Unparsed("unbalanced angle brackets")
+
+
+def fe_param_names(sig):
+    """names of the parameters in a function signature `<generics>(a: T, b: U) -> R where ..`"""
+    s = sig.strip()
+    if s.startswith("<"):
+        s = s[skip_angles(s, 0):].lstrip()
+    if not s.startswith("("):
+        raise Unparsed("signature " + sig[:60])
+    inner, _ = call_args(s, 0)
+    names, depth, ang, start = [], 0, 0, 0
+    parts = []
+    for i, c in enumerate(inner):
+        if c in "([{":
+            depth += 1
+        elif c in ")]}":
+            depth -= 1
+        elif c == "<":
+            ang += 1
+        elif c == ">" and i > 0 and inner[i - 1] not in "-=":
+            ang -= 1
+        elif c == "," and depth == 0 and ang == 0:
+            parts.append(inner[start:i])
+            start = i + 1
+    parts.append(inner[start:])
+    for p in parts:
+        p = p.strip()
+        if not p:
+            continue
+        m = re.match(r"(?:mut\s+)?(\w+)\s*:(?!:)", p)
+        if not m:
+            if re.fullmatch(r"&?\s*(?:mut\s+)?self", p):
+                names.append("self")
+                continue
+            raise Unparsed("parameter " + p[:60])
+        names.append(m.group(1))
+    return names
+
+
+def top_level_fns(block):
+    """[(name, signature text after the name, body)] of the functions directly inside `block`
+    (the text between the braces of an `impl` / of a file), nested functions excluded"""
+    out, depth, i, n = [], 0, 0, len(block)
+    while i < n:
+        c = block[i]
+        if c == "{":
+            depth += 1
+        elif c == "}":
+            depth -= 1
+        elif depth == 0 and block.startswith("fn", i) and (i == 0 or not (block[i - 1].isalnum() or block[i - 1] == "_")):
+            m = re.match(r"fn\s+([A-Za-z0-9_]+)", block[i:])
+            if m:
+                j, d = i + m.end(), 0
+                while j < n and not (block[j] == "{" and d == 0) and not (block[j] == ";" and d == 0):
+                    if block[j] in "([":
+                        d += 1
+                    elif block[j] in ")]":
+                        d -= 1
+                    j += 1
+                if j < n and block[j] == "{":
+                    body, end = block_after(block, j)
+                    out.append((m.group(1), block[i + m.end():j], body))
+                    i = end
+                    continue
+        i += 1
+    return out
+
+
+class FeCtx:
+    """what the evaluator of a front-end body needs: the free functions of the file, the methods of
+    the impl being evaluated and of the sequential impl, the names of the const parameters in scope"""
+
+    def __init__(self, free, methods, seq_methods, seq_owner, consts=()):
+        self.free, self.methods, self.seq_methods, self.seq_owner, self.consts = free, methods, seq_methods, seq_owner, set(consts)
+
+
+def fe_neg(v):
+    return v[1] if v[0] == "neg" else ("neg", v)
+
+
+def fe_generics(txt, ctx):
+    """the const arguments of a turbofish: `{ BDDOp::And as u8 }` -> "And", `-1` -> "-1", a const parameter in scope -> its name"""
+    out, parts, depth, last = [], [], 0, 0
+    for i, c in enumerate(txt):
+        if c in "([{<":
+            depth += 1
+        elif c in ")]}" or (c == ">" and txt[i - 1] not in "-="):
+            depth -= 1
+        elif c == "," and depth == 0:
+            parts.append(txt[last:i])
+            last = i + 1
+    parts.append(txt[last:])
+    for g in parts:
+        g = compact(g)
+        if not g:
+            continue
+        m = re.fullmatch(r"\{?(?:\w+::)*(\w+)asu8\}?", g)
+        if m:
+            out.append(m.group(1))
+        elif re.fullmatch(r"\{?-?\d+\}?", g):
+            out.append(g.strip("{}"))
+        elif g in ctx.consts:
+            out.append(g)
+        elif re.fullmatch(r"_|[A-Za-z_][\w:]*(?:<.*>)?|'\w+", g):
+            continue  # a type argument
+        else:
+            raise Unparsed("generic argument " + g)
+    return out
+
+
+def fe_args(txt):
+    return [a for a in split_top(protect_turbofish(txt), ",") if a.strip()]
+
+
+def fe_eval(txt, env, ctx, depth=0):
+    """symbolic value of an expression of a front-end body (see `Fe.Expr` in `RulesFrontEnds.lean`)"""
+    t = txt.replace("\x00", ",").strip()
+    if not t:
+        raise Unparsed("empty expression")
+    if depth > 12:
+        raise Unparsed("call depth")
+    # prefix operators
+    m = re.match(r"&\s*mut\b|&|\*", t)
+    if m:
+        return fe_eval(t[m.end():], env, ctx, depth)
+    # primary
+    i = 0
+    if t[0] == "(":
+        inner, i = call_args(t, 0)
+        parts = fe_args(inner)
+        val = ("tuple", [fe_eval(p, env, ctx, depth) for p in parts]) if len(parts) > 1 or inner.rstrip().endswith(",") else fe_eval(inner, env, ctx, depth)
+    elif re.match(r"-?\d", t):
+        m = re.match(r"-?\d+(?:_?[ui](?:8|16|32|64|size))?", t)
+        val, i = ("num", int(re.match(r"-?\d+", t).group(0))), m.end()
+    else:
+        m = re.match(r"[A-Za-z_]\w*", t)
+        if not m or t[:m.end()] in ("if", "match", "for", "while", "loop", "unsafe", "move", "return", "let"):
+            raise Unparsed("expression " + t[:70])
+        segs, gens, i = [m.group(0)], [], m.end()
+        while True:
+            mm = re.match(r"\s*::\s*", t[i:])
+            if not mm:
+                break
+            j = i + mm.end()
+            if j < len(t) and t[j] == "<":
+                k = skip_angles(t, j)
+                gens.append(t[j + 1:k - 1])
+                i = k
+                continue
+            m2 = re.match(r"[A-Za-z_]\w*", t[j:])
+            if not m2:
+                raise Unparsed("path " + t[:70])
+            segs.append(m2.group(0))
+            i = j + m2.end()
+        if i < len(t) and t[i] == "!":
+            raise Unparsed("macro " + t[:70])
+        mm = re.match(r"\s*\(", t[i:])
+        if mm:
+            argtxt, i = call_args(t, i + mm.end() - 1)
+            val = fe_call(segs, gens, fe_args(argtxt), env, ctx, depth)
+        else:
+            name = "::".join(segs)
+            if len(segs) == 1 and name in env:
+                val = env[name]
+            elif name in ("manager", "_manager"):
+                val = ("mgr",)
+            elif name == "SequentialRecursor":
+                val = ("rec", "seq")
+            elif name in ("true", "false"):
+                val = ("bool", name == "true")
+            elif len(segs) >= 2 and re.fullmatch(r"[A-Z]\w*", segs[-1]):
+                val = ("path", name)
+            else:
+                raise Unparsed("name " + name)
+    # postfix chain
+    while i < len(t):
+        rest = t[i:]
+        if rest[0].isspace():
+            i += 1
+            continue
+        if rest[0] == "?":
+            i += 1
+            continue
+        m = re.match(r"\.\s*(\w+)\s*\(", rest)
+        if m:
+            argtxt, i = call_args(t, i + m.end() - 1)
+            val = fe_method(val, m.group(1), fe_args(argtxt), env, ctx, depth)
+            continue
+        raise Unparsed("expression " + t[:70])
+    return val
+
+
+def fe_method(recv, name, args, env, ctx, depth):
+    if name in FE_IDENTITY_METHODS and not args:
+        return recv
+    a = [fe_eval(x, env, ctx, depth) for x in args]
+    if recv == ("mgr",):
+        if name == "clone_edge" and len(a) == 1:
+            return a[0]
+        if name == "get_terminal" and len(a) == 1:
+            return ("term", a[0][1].split("::")[-1]) if a[0][0] == "path" else ("termOf", a[0])
+        if name == "var_to_level" and len(a) == 1:
+            return ("varLevel", a[0])
+        if name == "zbdd_cache" and not a:
+            return ("zcache",)
+    if recv == ("zcache",) and name == "tautology" and len(a) == 1 and a[0][0] == "num":
+        return ("taut", a[0][1])
+    if recv[0] == "p" and name == "id" and not a:
+        return ("substId", recv)
+    if recv[0] == "p" and name == "pairs" and not a:
+        return ("substPairs", recv)
+    raise Unparsed("method ." + name + "(..)")
+
+
+def fe_run_body(body, env, ctx, depth):
+    """straight-line body: `let` bindings, then the value"""
+    env = dict(env)
+    stmts = [s for s in bc_stmts(protect_turbofish(body)) if not re.match(r"use\b|stat!", s)]
+    stmts = [s for s in stmts if not re.match(r"if\s+rec\.should_switch_to_sequential\(\)", s)]
+    for k, st in enumerate(stmts):
+        st = st.replace("\x00", ",")
+        m = re.match(r"let\s+(?:mut\s+)?(\w+)\s*(?::[^=]*)?=(?!=)\s*", st)
+        if m:
+            env[m.group(1)] = fe_eval(st[m.end():], env, ctx, depth)
+            continue
+        m = re.match(r"let\s*\(([^)]*)\)\s*=(?!=)\s*", st)
+        if m:
+            names = [v.strip() for v in m.group(1).split(",") if v.strip()]
+            v = fe_eval(st[m.end():], env, ctx, depth)
+            if v[0] != "tuple" or len(v[1]) != len(names):
+                raise Unparsed("tuple binding " + st[:70])
+            for nme, x in zip(names, v[1]):
+                env[re.sub(r"^mut\s+", "", nme)] = x
+            continue
+        if k != len(stmts) - 1:
+            raise Unparsed("statement " + st[:70])
+        return fe_eval(re.sub(r"^return\b", "", st), env, ctx, depth)
+    raise Unparsed("body without a value")
+
+
+def fe_call(segs, gens, args, env, ctx, depth):
+    name = segs[-1]
+    head = "::".join(segs)
+    if head == "Ok" and len(args) == 1:
+        return fe_eval(args[0], env, ctx, depth)
+    if head in ("EdgeDropGuard::new",) and len(args) == 2:
+        return fe_eval(args[1], env, ctx, depth)
+    if head == "ParallelRecursor::new" and len(args) == 1:
+        return ("rec", "par")
+    if head in ("not", "not_owned") and len(args) == 1:
+        return fe_neg(fe_eval(args[0], env, ctx, depth))
+    vals = [fe_eval(a, env, ctx, depth) for a in args]
+    if head == "get_terminal" and len(vals) == 2 and vals[0] == ("mgr",) and vals[1][0] == "bool":
+        return ("bterm", vals[1][1])
+    # a method of this front end / of the sequential front end
+    table = None
+    if len(segs) == 2 and segs[0] == "Self":
+        table = ctx.methods
+    elif len(segs) == 2 and segs[0] == ctx.seq_owner:
+        table = ctx.seq_methods
+    if table is not None:
+        if name not in table:
+            raise Unparsed("method " + head + " not found")
+        params, body = table[name]
+        if len(params) != len(vals):
+            raise Unparsed("arity of " + head)
+        sub = FeCtx(ctx.free, table, ctx.seq_methods, ctx.seq_owner)
+        if table is ctx.seq_methods and table is not ctx.methods:
+            # delegation of the multi-threaded front end to the sequential one: a method with a body of
+            # its own is `own` there too, provided the parameters are passed on unchanged and in order
+            try:
+                return fe_method_value(params, body, vals, sub, depth + 1)
+            except (Unparsed, SystemExit, ValueError, IndexError):
+                expected, k = [], 0
+                for p in params:
+                    if p in ("manager", "_manager"):
+                        expected.append(("mgr",))
+                    else:
+                        expected.append(("p", k))
+                        k += 1
+                if vals == expected:
+                    return ("own",)
+                raise Unparsed("delegation to " + head + " with other arguments than the own parameters in order")
+        return fe_method_value(params, body, vals, sub, depth + 1)
+    if len(segs) != 1:
+        raise Unparsed("call " + head)
+    # a free function of the file: (manager, [rec], operands..)
+    if not vals or vals[0] != ("mgr",):
+        raise Unparsed("call " + head + " without `manager` first")
+    recs = [v for v in vals[1:] if v[0] == "rec"]
+    opnds = [v for v in vals[1:] if v[0] != "rec"]
+    if len(recs) > 1 or any(v[0] in ("mgr", "tuple", "zcache", "bool", "path") for v in opnds):
+        raise Unparsed("arguments of " + head)
+    consts = []
+    for g in gens:
+        consts += fe_generics(g, ctx)
+    # a straight-line wrapper (e.g. zbdd `apply_not`, bcdd `apply_and`) is followed
+    if name in ctx.free and len(ctx.free[name]) == 1:
+        params, body = ctx.free[name][0]
+        if len(params) == len(vals):
+            try:
+                e2 = {}
+                for p, v in zip(params, vals):
+                    e2[p] = v
+                return fe_run_body(body, e2, FeCtx(ctx.free, {}, ctx.seq_methods, ctx.seq_owner), depth + 1)
+            except (Unparsed, SystemExit, ValueError, IndexError):
+                pass
+    return ("call", name, consts, recs[0][1] if recs else "none", opnds)
+
+
+def fe_method_value(params, body, vals, ctx, depth):
+    env = {}
+    for p, v in zip(params, vals):
+        env[p] = v
+    return fe_run_body(body, env, ctx, depth)
+
+
+def fe_lean(v):
+    k = v[0]
+    if k == "p":
+        return f"(.p {v[1]})"
+    if k == "neg":
+        return f"(.neg {fe_lean(v[1])})"
+    if k == "taut":
+        return f"(.taut {v[1]})"
+    if k == "num":
+        return f"(.num {lean_int(v[1])})"
+    if k == "term":
+        return f'(.term "{v[1]}")'
+    if k == "bterm":
+        return f"(.bterm {lean_bool(v[1])})"
+    if k in ("termOf", "varLevel", "substPairs", "substId"):
+        return f"(.{k} {fe_lean(v[1])})"
+    if k == "call":
+        args = ".nil"
+        for a in reversed(v[4]):
+            args = f"(.cons {fe_lean(a)} {args})"
+        return f'(.call "{v[1]}" {lean_strs(v[2])} .{v[3]} {args})'
+    if k == "own":
+        return ".own"
+    raise Unparsed("value " + repr(v)[:60])
+
+
+def fe_impls(src):
+    """owner type -> [(trait, {method: (params, body)}, [method names in order])]"""
+    out = {}
+    for st, en, ty, tr in impl_spans(src):
+        if tr in FE_SKIP_TRAITS:
+            continue
+        blk, _ = block_after(src, src.index("{", st))
+        meths, order = {}, []
+        for name, sig, body in top_level_fns(blk):
+            meths[name] = (fe_param_names(sig), body)
+            order.append(name)
+        out.setdefault(ty, []).append((tr, meths, order))
+    return out
+
+
+def fe_rows(kind, src, owner, unparsed):
+    """-> (Lean rows of the sequential front end, of the multi-threaded one or None)"""
+    src = re.sub(r"#!?\[[^\]]*\]", "", strip_debug_asserts(strip_comments(src)))
+    free = {}
+    # the free functions of the file (depth 0; `pub mod mt { .. }` contains only impls)
+    for name, sig, body in top_level_fns(src):
+        try:
+            free.setdefault(name, []).append((fe_param_names(sig), body))
+        except Unparsed:
+            pass
+    impls = fe_impls(src)
+    seq_all = {}
+    for tr, meths, order in impls.get(owner, []):
+        seq_all.update(meths)
+    result = []
+    for front, own in (("seq", owner), ("mt", owner + "MT")):
+        if own not in impls:
+            result.append(None)
+            continue
+        allm = {}
+        for tr, meths, order in impls[own]:
+            allm.update(meths)
+        rows = []
+        for tr, meths, order in impls[own]:
+            for name in order:
+                params, body = meths[name]
+                where = f"{own}::{name}"
+                ctx = FeCtx(free, allm, seq_all, owner)
+                vals = [("mgr",) if p in ("manager", "_manager") else None for p in params]
+                k = 0
+                for idx, p in enumerate(params):
+                    if vals[idx] is None:
+                        vals[idx] = ("p", k)
+                        k += 1
+                try:
+                    v = fe_method_value(params, body, vals, ctx, 0)
+                    e = fe_lean(v)
+                except (Unparsed, SystemExit, ValueError, IndexError) as ex:
+                    if front == "seq":
+                        e = ".own"  # a method with a body of its own (loops, matches, nested functions)
+                    else:
+                        e = f"(.other {lstr(err_text(ex))})"
+                        unparsed.append(desc(where, "neither a call of a kernel nor a delegation to the sequential front end: " + err_text(ex)))
+                rows.append(f'⟨"{tr}", "{name}", {k}, {e}⟩')
+        result.append(rows)
+    return result
+
+
+def fe_dispatch_bdd(src, unparsed):
+    """`apply_quant_dispatch` of the simple BDD rules: operator ↦ the call"""
+    src = re.sub(r"#!?\[[^\]]*\]", "", strip_comments(src))
+    rows = []
+    fns = [(n, s, b) for n, s, b in top_level_fns(src) if n == "apply_quant_dispatch"]
+    if len(fns) != 1:
+        unparsed.append(desc("simple/apply_rec.rs", "fn apply_quant_dispatch not found"))
+        return rows
+    _, sig, body = fns[0]
+    params = fe_param_names(sig)
+    m = re.search(r"match\s+op\s*(?=\{)", body)
+    if not m:
+        unparsed.append(desc("apply_quant_dispatch", "no `match op`"))
+        return rows
+    arms, end = block_after(body, m.end())
+    if body[end:].strip():
+        unparsed.append(desc("apply_quant_dispatch", "code after the match"))
+    env, k = {}, 0
+    for p in params:
+        if p in ("manager", "rec"):
+            env[p] = ("mgr",) if p == "manager" else ("rec", "seq")
+        else:
+            env[p] = ("p", k)
+            k += 1
+    consts = re.findall(r"const\s+(\w+)\s*:", sig)
+    ctx = FeCtx({}, {}, {}, "", consts)
+    for pat, res in it_split_arms(arms):
+        try:
+            v = fe_eval(strip_outer(res, "{", "}"), env, ctx)
+            rows.append(f'("{compact(pat).split("::")[-1]}", {fe_lean(v)})')
+        except (Unparsed, SystemExit, ValueError, IndexError) as ex:
+            unparsed.append(desc("apply_quant_dispatch arm " + pat, err_text(ex)))
+    return rows
+
+
+def fe_selection(read_, unparsed):
+    """`oxidd/src/<kind>.rs`: which front end each manager flavour selects under which cfg"""
+    rows = []
+    for kind in ("bdd", "bcdd", "zbdd", "mtbdd", "tdd"):
+        try:
+            src = strip_comments(read_(f"crates/oxidd/src/{kind}.rs"))
+        except (Exception, SystemExit) as e:
+            unparsed.append(desc(f"oxidd/src/{kind}.rs", err_text(e)))
+            continue
+        found = 0
+        for mm in re.finditer(r"\bmod\s+(index|pointer)\s*(?=\{)", src):
+            blk, _ = block_after(src, mm.end())
+            for m in re.finditer(r"((?:#\[[^\]]*\]\s*)*)type\s+FunctionInner(?:<[^>]*>)?\s*=\s*([\w:]+?)(\w+)\s*<", blk):
+                attrs = compact(m.group(1))
+                if attrs == "":
+                    cfg = "always"
+                elif attrs == '#[cfg(feature="multi-threading")]':
+                    cfg = "mt"
+                elif attrs == '#[cfg(not(feature="multi-threading"))]':
+                    cfg = "seq"
+                else:
+                    cfg = "?"
+                    unparsed.append(desc(f"oxidd/src/{kind}.rs", "attributes of FunctionInner: " + m.group(1)))
+                rows.append(f'("{kind}", "{mm.group(1)}", "{cfg}", "{m.group(3)}")')
+                found += 1
+        if not found:
+            unparsed.append(desc(f"oxidd/src/{kind}.rs", "no `type FunctionInner = ..`"))
+    return rows
+
+
+def fe_rec_depth(read_, unparsed):
+    """`ParallelRecursor::new`: where the remaining split depth comes from"""
+    rows = []
+    for crate in ("oxidd-rules-bdd", "oxidd-rules-zbdd"):
+        try:
+            src = strip_comments(read_(f"crates/{crate}/src/recursor.rs"))
+            m = re.search(r"impl\s+ParallelRecursor\s*(?=\{)", src)
+            blk, _ = block_after(src, m.end())
+            body = [b for n, s, b in top_level_fns(blk) if n == "new"][0]
+            mm = re.fullmatch(r"Self\{remaining_depth:(.*?),?\}", compact(body))
+            rows.append(f'("{crate}", {lstr(mm.group(1))})')
+            sw = [b for b in fn_bodies(src, "should_switch_to_sequential")]
+            rows.append(f'("{crate} switch", {lstr(" | ".join(compact(b) for b in sw))})')
+        except (Exception, SystemExit) as e:
+            unparsed.append(desc(crate + " recursor.rs", err_text(e)))
+    return rows
+
+
+def gen_frontends(read_):
+    unparsed, tables = [], {}
+    for kind, path, owner in FE_KINDS:
+        try:
+            tables[kind] = fe_rows(kind, read_(path), owner, unparsed)
+        except (Exception, SystemExit) as e:
+            tables[kind] = [None, None]
+            unparsed.append(desc(f"front ends ({kind})", err_text(e)))
+    disp = []
+    try:
+        disp = fe_dispatch_bdd(read_("crates/oxidd-rules-bdd/src/simple/apply_rec.rs"), unparsed)
+    except (Exception, SystemExit) as e:
+        unparsed.append(desc("apply_quant_dispatch (bdd)", err_text(e)))
+    sel = fe_selection(read_, unparsed)
+    recd = fe_rec_depth(read_, unparsed)
+    L = ["import OxiddModel.Generated.RulesFrontEnds", GEN_HEADER, "namespace OxiddModel.Generated\n"]
+    for kind, path, owner in FE_KINDS:
+        seq, mt = tables[kind]
+        for rows, suffix, what in ((seq, "", owner), (mt, "MT", owner + "MT")):
+            L.append(f"/-- every trait method of `{what}` (`{path.replace('crates/', '')}`): trait, method, number of parameters after `manager`, and what the body evaluates to (calls of wrappers and of other methods followed) -/")
+            if rows is None:
+                L.append(f"def frontEnd_{kind}{suffix} : Option (List Fe.Row) := none")
+            else:
+                L.append(f"def frontEnd_{kind}{suffix} : Option (List Fe.Row) := some\n  [" + ",\n   ".join(rows) + "]")
+    L.append("/-- `apply_quant_dispatch` of the simple BDD rules: `BooleanOperator` ↦ the kernel call (`.p 0` = `op`, `.p 1` = `f`, `.p 2` = `g`, `.p 3` = `vars`) -/")
+    L.append("def frontEndDispatch_bdd : List (String × Fe.Expr) :=\n  [" + ",\n   ".join(disp) + "]")
+    L.append("/-- `crates/oxidd/src/<kind>.rs`: (kind, manager flavour, cfg — `seq` = `not(feature = \"multi-threading\")`, `mt`, `always` —, the front end selected) -/")
+    L.append("def frontEndSelection : List (String × String × String × String) :=\n  [" + ",\n   ".join(sel) + "]")
+    L.append("/-- `ParallelRecursor::new` (where the split depth comes from) and `should_switch_to_sequential` of both recursor modules -/")
+    L.append("def frontEndRecursor : List (String × String) :=\n  [" + ",\n   ".join(recd) + "]")
+    L.append("/-- constructs of the front ends that the extractor does not recognise -/")
+    L.append(f"def frontEndsUnparsed : List String := {lean_strs(unparsed)}")
+    L.append("\nend OxiddModel.Generated")
+    return {"SrcFrontEnds.lean": "\n".join(L) + "\n"}
+
+
+# ---- cache keys of the BCDD / ZBDD / MTBDD / TDD rules ------------------------------------------------
+
+KY2_FILES = [("bcdd", "crates/oxidd-rules-bdd/src/complement_edge/apply_rec.rs", "BCDDOp"),
+             ("zbdd", "crates/oxidd-rules-zbdd/src/apply_rec.rs", "ZBDDOp"),
+             ("mtbdd", "crates/oxidd-rules-mtbdd/src/apply_rec.rs", "MTBDDOp"),
+             ("tdd", "crates/oxidd-rules-tdd/src/apply_rec.rs", "TDDOp")]
+
+
+def enclosing_block(body, pos):
+    """(start, end) of the innermost `{..}` of `body` containing `pos` ((0, len) at top level)"""
+    depth = 0
+    for i in range(pos - 1, -1, -1):
+        c = body[i]
+        if c == "}":
+            depth += 1
+        elif c == "{":
+            if depth == 0:
+                d = 0
+                for j in range(i, len(body)):
+                    if body[j] == "{":
+                        d += 1
+                    elif body[j] == "}":
+                        d -= 1
+                        if d == 0:
+                            return i, j + 1
+                return i, len(body)
+            depth -= 1
+    return 0, len(body)
+
+
+def stmt_end(body, pos):
+    """index of the `;` ending the statement that starts at / contains `pos` (brackets balanced from `pos`)"""
+    depth = 0
+    for j in range(pos, len(body)):
+        c = body[j]
+        if c in "([{":
+            depth += 1
+        elif c in ")]}":
+            depth -= 1
+            if depth < 0:
+                return j
+        elif c == ";" and depth == 0:
+            return j
+    return len(body)
+
+
+def let_bindings(body):
+    """[(position of `let`, end of statement, block start, block end, [names], defining text)] of every `let` in `body`"""
+    out = []
+    for m in re.finditer(r"\blet\b", body):
+        depth, j = 0, m.end()
+        while j < len(body):
+            c = body[j]
+            if c in "([{":
+                depth += 1
+            elif c in ")]}":
+                depth -= 1
+            elif c == "=" and depth == 0 and body[j + 1:j + 2] != "=" and body[j - 1] not in "=!<>":
+                break
+            elif c == ";" and depth == 0:
+                break
+            j += 1
+        if j >= len(body) or body[j] != "=":
+            continue
+        pat = re.sub(r":[^,()]*$", "", body[m.end():j]) if "(" not in body[m.end():j] else body[m.end():j]
+        names = [n for n in re.findall(r"\b[a-z_][a-z0-9_]*\b", pat) if n not in ("mut", "ref", "_")]
+        end = stmt_end(body, j + 1)
+        bs, be = enclosing_block(body, m.start())
+        out.append((m.start(), end, bs, be, names, " ".join(body[j + 1:end].split())))
+    return out
+
+
+def binding_of(lets, name, pos):
+    """(ordinal, defining text) of the binding of `name` visible at `pos`: 0 = not bound by a `let`
+    (a parameter or a pattern of a match arm), k = the k-th visible `let` of that name"""
+    k, text = 0, ""
+    for lp, le, bs, be, names, rhs in lets:
+        if name in names and le < pos and bs <= pos < be:
+            k += 1
+            text = rhs
+    return k, text
+
+
+def ky2_shape(text):
+    """what kind of expression defines a key operand / an operator variable"""
+    c = compact(text)
+    if c == "manager.num_levels()":
+        return "numLevels"
+    m = re.fullmatch(r"(\w+)\.with_tag\((?:EdgeTag::)?None\)", c)
+    if m:
+        return "untag:" + m.group(1)
+    m = re.fullmatch(r"(\w+)\.borrowed\(\)", c)
+    if m:
+        return "alias:" + m.group(1)
+    if c in ("iff>g{(g,f)}else{(f,g)}", "ifg<f{(g,f)}else{(f,g)}", "iff<g{(f,g)}else{(g,f)}"):
+        return "sortedPair"
+    m = re.fullmatch(r"if(.*?)\{(?:crate::)?set_pop\(manager,vars,(\w+)\)\}else\{vars\}", c)
+    if m:
+        cond = "exceptUnique" if m.group(1) in ("operator!=BCDDOp::Unique", "Q!=BCDDOp::Uniqueasu8") else m.group(1)
+        return "pop:" + m.group(2) + ":" + cond
+    if re.match(r"match(?:super::)?terminal_bin::<[^>]*>\(manager,&f,&g\)\??\{", c) and "Operation::Binary(o,op1,op2)=>(o,op1,op2)" in c:
+        return "terminalBin"
+    if re.match(r"match\(\)\{|matchVAL\{", c):
+        return "table"
+    if re.fullmatch(r"const\{\w+::from_apply_quant\(Q,OP\)\}", c):
+        return "fromApplyQuant"
+    if re.match(r"ifOP==BCDDOp::Andasu8(?:\|\|OP==BCDDOp::UniqueNandasu8)?\{matchsuper::terminal_and\(manager,&f,&g\)", c) and "terminal_xor(manager,&f,&g)" in c:
+        return "terminalKernels"
+    return "other"
+
+
+def ky2_name(txt):
+    c = re.sub(r"\.borrowed\(\)$", "", compact(txt)).lstrip("&")
+    if not re.fullmatch(r"\w+", c):
+        raise Unparsed("key operand " + txt)
+    return c
+
+
+def ky2_scan(kind, src, enum, rows, defs, tables, unparsed):
+    src = re.sub(r"#!?\[[^\]]*\]", "", strip_debug_asserts(strip_comments(src)))
+    seen_defs = set()
+    for fn, sig, body in top_level_fns(src):
+        if ".apply_cache()" not in body:
+            continue
+        lets = let_bindings(body)
+
+        def opnd(txt, pos):
+            n = ky2_name(txt)
+            k, text = binding_of(lets, n, pos)
+            if k and (fn, n, k) not in seen_defs:
+                seen_defs.add((fn, n, k))
+                defs.append(f'⟨"{kind}", "{fn}", "{n}", {k}, "{ky2_shape(text)}", {lstr(compact(text)[:70])}⟩')
+            return f'("{n}", {k})'
+
+        for m in re.finditer(r"\.\s*apply_cache\(\)\s*\.\s*(\w+)\s*\(", body):
+            meth = m.group(1)
+            where = f"{kind} {fn}: apply_cache().{meth}"
+            try:
+                args, aend = call_args(body, m.end() - 1)
+                parts = [a for a in split_top(args, ",") if a.strip()]
+                pos = m.start()
+                if meth in ("get", "add"):
+                    if len(parts) != (3 if meth == "get" else 4) or compact(parts[0]) != "manager":
+                        raise Unparsed("arguments " + args)
+                    edges, nums = ky_slice(parts[2]), []
+                    vtxt = parts[3] if meth == "add" else ""
+                elif meth in ("get_extended", "add_extended"):
+                    if len(parts) != (3 if meth == "get_extended" else 4) or compact(parts[0]) != "manager":
+                        raise Unparsed("arguments " + args)
+                    kp = [a for a in split_top(strip_outer(parts[2]), ",") if a.strip()]
+                    if len(kp) != 2:
+                        raise Unparsed("extended key " + parts[2])
+                    edges, nums = ky_slice(kp[0]), ky_slice(kp[1])
+                    vtxt = ""
+                    if meth == "add_extended":
+                        vp = [a for a in split_top(strip_outer(parts[3]), ",") if a.strip()]
+                        ve = ky_slice(vp[0]) if len(vp) == 2 else []
+                        if len(ve) != 1 or ky_slice(vp[1]):
+                            raise Unparsed("extended value " + parts[3])
+                        vtxt = ve[0]
+                else:
+                    raise Unparsed("method " + meth)
+                value = ""
+                if vtxt:
+                    mv = re.fullmatch(r"(\w+)\.borrowed\(\)", compact(vtxt))
+                    if not mv:
+                        raise Unparsed("value " + vtxt)
+                    value = mv.group(1)
+                    tail = body[aend:aend + 160]
+                    if re.match(r"\s*;\s*(?:let\s+\w+\s*=\s*" + value + r"\.tag\(\)\s*;\s*)?Ok\(\s*" + value + r"\b", tail):
+                        value = "result"
+                # the operator
+                t = compact(parts[1])
+                mt = re.fullmatch(r"(?:" + enum + r"::)(\w+)", t)
+                if mt:
+                    tag = f'(.lit "{mt.group(1)}")'
+                elif re.fullmatch(r"[A-Z]\w*", t) and re.search(r"\buse\s+" + enum + r"::(?:\{[^}]*\b" + t + r"\b[^}]*\}|" + t + r")\s*;", body):
+                    tag = f'(.lit "{t}")'
+                elif re.fullmatch(r"[a-z_]\w*", t):
+                    k, text = binding_of(lets, t, pos)
+                    tag = f'(.var "{t}" {k})'
+                    if (fn, t, k) not in seen_defs:
+                        seen_defs.add((fn, t, k))
+                        defs.append(f'⟨"{kind}", "{fn}", "{t}", {k}, "{ky2_shape(text)}", {lstr(compact(text)[:70])}⟩')
+                        # a table `match () { _ if Q == E::A as u8 => E::B, .. }` / `match VAL { -1 => E::B, .. }`
+                        mm = re.match(r"match\s*(\(\s*\)|\w+)\s*(?=\{)", text)
+                        if mm:
+                            arms, _ = block_after(text, mm.end())
+                            for pat, res in split_arms(arms):
+                                mr = re.fullmatch(r"(?:" + enum + r"::)?(\w+)", compact(res))
+                                mp = re.fullmatch(r"_if\w+==" + enum + r"::(\w+)asu8", compact(pat)) or re.fullmatch(r"(-?\d+)", compact(pat))
+                                if mp and mr:
+                                    tables.append(f'("{kind}", "{fn}", "{mp.group(1)}", "{mr.group(1)}")')
+                                elif compact(pat) == "_" and re.match(r"unreachable!|panic!", res.strip()):
+                                    continue
+                                else:
+                                    unparsed.append(desc(where + " operator table", pat + " => " + res))
+                else:
+                    tag = f"(.other {lstr(t)})"
+                rows.append(f'⟨"{kind}", "{fn}", {lean_bool(meth.startswith("add"))}, {tag}, {lean_list([opnd(e, pos) for e in edges])}, {lean_list([opnd(n, pos) for n in nums])}, "{value}"⟩')
+            except (Unparsed, SystemExit, ValueError, IndexError) as e:
+                unparsed.append(desc(where, err_text(e)))
+
+
+def ky2_bcdd_restrict_tags(src, unparsed):
+    """BCDD `restrict`: the key uses the untagged `f`; the complement is re-applied to the cached and to
+    the computed result alike"""
+    src = strip_debug_asserts(strip_comments(src))
+    out = []
+    fns = [b for n, s, b in top_level_fns(src) if n == "restrict"]
+    if len(fns) != 1:
+        unparsed.append(desc("bcdd restrict", "fn restrict not found"))
+        return out
+    body = fns[0]
+    for what, rx in (("f_untagged", r"let\s+f_untagged\s*=\s*([^;]*);"), ("f_tag", r"let\s+f_tag\s*=\s*([^;]*);")):
+        m = re.search(rx, body)
+        out.append(f'("{what}", {lstr(compact(m.group(1)) if m else "?")})')
+    rets = re.findall(r"Ok\(\s*(\w+)\.with_tag_owned\(\s*(\w+)\s*\^\s*(\w+)\s*\)\s*\)", body)
+    for r in rets:
+        mdef = re.search(r"let\s+" + r[1] + r"\s*=\s*" + r[0] + r"\.tag\(\)\s*;", body)
+        out.append(f'("return", {lstr(("tag(res)^" + r[2]) if mdef else "?")})')
+    return out
+
+
+def gen_keys2(read_):
+    rows, defs, tables, unparsed, bt, faq = [], [], [], [], [], []
+    for kind, path, enum in KY2_FILES:
+        try:
+            ky2_scan(kind, read_(path), enum, rows, defs, tables, unparsed)
+        except (Exception, SystemExit) as e:
+            unparsed.append(desc(path, err_text(e)))
+    try:
+        bt = ky2_bcdd_restrict_tags(read_("crates/oxidd-rules-bdd/src/complement_edge/apply_rec.rs"), unparsed)
+    except (Exception, SystemExit) as e:
+        unparsed.append(desc("bcdd restrict tags", err_text(e)))
+    try:
+        src = strip_comments(read_("crates/oxidd-rules-bdd/src/complement_edge/mod.rs"))
+        bodies = fn_bodies(src, "from_apply_quant")
+        if len(bodies) != 1:
+            unparsed.append(desc("complement_edge/mod.rs", "fn from_apply_quant not found"))
+        else:
+            for m in re.finditer(r"if\s+q\s*==\s*BCDDOp::(\w+)\s+as\s+u8\s*(?=\{)", bodies[0]):
+                blk, _ = block_after(bodies[0], m.end())
+                mm = re.match(r"\s*match\s*\(\s*\)\s*(?=\{)", blk)
+                if not mm:
+                    unparsed.append(desc("from_apply_quant (bcdd)", "block for q == " + m.group(1)))
+                    continue
+                arms, _ = block_after(blk, mm.end())
+                for pat, res in split_arms(arms):
+                    mp = re.fullmatch(r"_ifop==BCDDOp::(\w+)asu8", compact(pat))
+                    mr = re.fullmatch(r"BCDDOp::(\w+)", compact(res))
+                    if mp and mr:
+                        faq.append(f'("{m.group(1)}", "{mp.group(1)}", "{mr.group(1)}")')
+                    elif compact(pat) == "_" and re.match(r"unreachable!|panic!", res.strip()):
+                        continue
+                    else:
+                        unparsed.append(desc("from_apply_quant (bcdd)", pat + " => " + res))
+    except (Exception, SystemExit) as e:
+        unparsed.append(desc("from_apply_quant (bcdd)", err_text(e)))
+    L = ["import OxiddModel.Generated.RulesKeys2", GEN_HEADER, "namespace OxiddModel.Generated\n"]
+    L.append("/-- every access to the apply cache in the `apply_rec.rs` of the BCDD / ZBDD / MTBDD / TDD rules: kind, function, lookup (`false`) or insertion (`true`), operator, edge operands, numeric operands — each operand as (name, k) where k = 0 for a parameter (or a match-arm binding) and k ≥ 1 for the k-th `let` of that name visible at the access —, the value inserted (`result` = the edge the function returns) -/")
+    L.append("def keyRows2 : List Ky2.Row :=\n  [" + ",\n   ".join(rows) + "]")
+    L.append("/-- every `let`-bound name used in a key or as the operator: kind, function, name, which `let`, the shape of the defining expression, its first 70 characters -/")
+    L.append("def keyDefs2 : List Ky2.Def :=\n  [" + ",\n   ".join(defs) + "]")
+    L.append("/-- operator variables defined by a table (`match () { _ if Q == E::A as u8 => E::B, .. }`, `match VAL { -1 => .. }`): (kind, function, selector, operator) -/")
+    L.append("def keyTagTables2 : List (String × String × String × String) :=\n  [" + ",\n   ".join(tables) + "]")
+    L.append("/-- `BCDDOp::from_apply_quant(q, op)` (`complement_edge/mod.rs`) -/")
+    L.append("def fromApplyQuantRows_bcdd : List (String × String × String) :=\n  [" + ",\n   ".join(faq) + "]")
+    L.append("/-- BCDD `restrict`: the untagged key operand, the tag put back on the result, and every `Ok(res.with_tag_owned(tag(res) ^ f_tag))` return -/")
+    L.append("def bcddRestrictTags : List (String × String) := " + lean_list(bt))
+    L.append("/-- cache accesses that the extractor does not recognise -/")
+    L.append(f"def keys2Unparsed : List String := {lean_strs(unparsed)}")
+    L.append("\nend OxiddModel.Generated")
+    return {"SrcKeys2.lean": "\n".join(L) + "\n"}
+
+
+# ---- order of the manager hooks in `gc` / `reorder` / `add_vars` / `add_named_vars*` --------------------
+
+HK_EVENTS = [
+    (r"(?:self|this)\s*\.\s*data\s*\.\s*pre_reorder\s*\(", ".preReorder"),
+    (r"MD\s*::\s*pre_reorder_mut\s*\(", ".preReorderMut"),
+    (r"(?:self|this)\s*\.\s*data\s*\.\s*post_reorder\s*\(", ".postReorder"),
+    (r"MD\s*::\s*post_reorder_mut\s*\(", ".postReorderMut"),
+    (r"(?:self|this)\s*\.\s*data\s*\.\s*pre_gc\s*\(", ".preGc"),
+    (r"(?:self|this)\s*\.\s*data\s*\.\s*post_gc\s*\(", ".postGc"),
+    (r"\.\s*unique_table\s*\.\s*resize_with\s*\(\s*(\w+)\s+as\s+usize", ".resize"),
+    (r"\.\s*var_level_map\s*\.\s*extend\s*\(\s*([^;]*?)\s*\)\s*(?:;|$)", ".vlmExtend"),
+    (r"\.\s*var_name_map\s*\.\s*add_unnamed\s*\(\s*(\w+)\s*\)", ".namesAddUnnamed"),
+    (r"\.\s*var_name_map\s*\.\s*add_named\s*\(", ".namesAddNamed"),
+    (r"self\s*\.\s*var_name_map\s*=\s*(\w+)\b(?!\s*\.)", ".namesSet"),
+    (r"self\s*\.\s*reorder_gc_prepared\s*=\s*(true|false)\b", ".setPrepared"),
+    (r"\bf\s*\(\s*self\s*\)", ".callF"),
+    (r"self\s*\.\s*gc_ongoing\s*\.\s*unlock\s*\(", ".unlock"),
+    (r"self\s*\.\s*gc_count\s*\.\s*fetch_add\s*\(\s*1\s*,|\*\s*self\s*\.\s*gc_count\s*\.\s*get_mut\(\)\s*\+=\s*1\b", ".gcCountInc"),
+    (r"self\s*\.\s*reorder_count\s*\+=\s*1\b", ".reorderCountInc"),
+    (r"\blevel\s*\.\s*gc\s*\(", ".sweepLevel"),
+    (r"terminal_manager\b[^;]*?\.\s*gc\s*\(\s*\)", ".sweepTerminals"),
+    (r"\bdrop\s*\(\s*guard\s*\)", ".dropGuard"),
+    (r"\breturn\b", ".ret"),
+    (r"self\s*\.\s*add_named_vars\s*\(", ".callAddNamedVars"),
+]
+HK_CONDS = [
+    (r"!self\.reorder_gc_prepared", ".ifNotPrepared"),
+    (r"self\.reorder_gc_prepared", ".ifPrepared"),
+    (r"!self\.gc_ongoing\.try_lock\(\)", ".ifTryLockFails"),
+    (r"!self\.var_name_map\.is_empty\(\)", ".ifNamesNonEmpty"),
+]
+
+
+def hk_events(text, ctx, fn, rows):
+    """the events of a piece of straight-line text, in textual order"""
+    found = []
+    for rx, name in HK_EVENTS:
+        for m in re.finditer(rx, text):
+            arg = ""
+            if m.groups() and m.group(1) is not None:
+                arg = compact(m.group(1))
+            found.append((m.start(), name, arg))
+    for _, name, arg in sorted(found):
+        rows.append(f'⟨"{fn}", {ctx}, {name}, {lstr(arg)}⟩')
+
+
+def hk_walk(block, ctx, fn, rows, deferred, unparsed):
+    """walk the statements of a block; `if` / `for` / the scope guard get their own context"""
+    rest = block
+    for st in bc_stmts(block):
+        s = st.strip()
+        # a bare block (left over from a `#[cfg(..)] { .. }`)
+        while s.startswith("{"):
+            blk, end = block_after(s, 0)
+            hk_walk(blk, ctx, fn, rows, deferred, unparsed)
+            s = s[end:].strip()
+        if not s:
+            continue
+        m = re.match(r"if\s+(.*?)\s*(?=\{)", s, flags=re.S)
+        if m and not re.match(r"if\s+let\b", s):
+            cond = compact(m.group(1))
+            cctx = None
+            for rx, name in HK_CONDS:
+                if re.fullmatch(rx, cond):
+                    cctx = name
+                    break
+            blk, end = block_after(s, m.end())
+            tail = s[end:].strip()
+            has_events = any(re.search(rx, s) for rx, _ in HK_EVENTS)
+            if cctx is None:
+                if has_events:
+                    unparsed.append(desc(f"fn {fn}", "hook / bookkeeping call under an unrecognised condition: if " + m.group(1)))
+                continue
+            if ctx != ".top":
+                unparsed.append(desc(f"fn {fn}", "nested condition: if " + m.group(1)))
+                continue
+            hk_walk(blk, cctx, fn, rows, deferred, unparsed)
+            if tail:
+                if any(re.search(rx, tail) for rx, _ in HK_EVENTS):
+                    unparsed.append(desc(f"fn {fn}", "hook / bookkeeping call in an else branch"))
+            continue
+        m = re.match(r"for\s+\w+\s+in\s+&?\s*self\s*\.\s*unique_table\s*(?=\{)", s)
+        if m:
+            blk, end = block_after(s, m.end())
+            if ctx != ".top":
+                unparsed.append(desc(f"fn {fn}", "sweep loop under a condition"))
+            hk_events(blk, ".sweepLoop", fn, rows)
+            if s[end:].strip():
+                hk_walk(s[end:], ctx, fn, rows, deferred, unparsed)
+            continue
+        m = re.match(r"let\s+(?:mut\s+)?guard\s*=\s*scopeguard::guard\s*\(\s*self\s*,\s*\|\s*this\s*\|\s*(?=\{)", s)
+        if m:
+            blk, end = block_after(s, m.end())
+            tmp = []
+            hk_walk(blk, ".guard", fn, tmp, None, unparsed)
+            if deferred is None:
+                unparsed.append(desc(f"fn {fn}", "scope guard inside a scope guard"))
+            else:
+                deferred.extend(tmp)
+            continue
+        if re.match(r"(for|while|loop|match)\b", s) and any(re.search(rx, s) for rx, _ in HK_EVENTS if rx != r"\breturn\b"):
+            unparsed.append(desc(f"fn {fn}", "hook / bookkeeping call inside a loop or match: " + s[:50]))
+            continue
+        before = len(rows)
+        hk_events(s, ctx, fn, rows)
+        # the scope guard runs where it is dropped
+        if deferred is not None and any(".dropGuard" in r for r in rows[before:]):
+            rows.extend(deferred)
+            del deferred[:]
+
+
+def hk_manager(src, tag, unparsed):
+    src = re.sub(r"#!?\[[^\]]*\]", "", strip_debug_asserts(strip_comments(src)))
+    rows = []
+    wanted = {"add_vars": "unique_table", "add_named_vars": "pre_reorder", "add_named_vars_from_map": "pre_reorder",
+              "gc": "gc_ongoing", "reorder": "reorder_gc_prepared"}
+    for name, marker in wanted.items():
+        cands = [(sig, b) for sig, b in fn_defs(src, name) if marker in b]
+        if len(cands) != 1:
+            unparsed.append(desc(tag, f"fn {name}: {len(cands)} candidates"))
+            continue
+        sig, body = cands[0]
+        deferred = []
+        try:
+            hk_walk(body, ".top", name, rows, deferred, unparsed)
+        except (Unparsed, SystemExit, ValueError, IndexError) as e:
+            unparsed.append(desc(f"{tag} fn {name}", err_text(e)))
+        if deferred:
+            unparsed.append(desc(f"{tag} fn {name}", "scope guard never dropped explicitly"))
+    # where else are the hooks called / is the flag written?
+    spans = fn_spans_cached(src)
+    for m in re.finditer(r"\.\s*data\s*\.\s*(?:pre|post)_(?:gc|reorder)\s*\(|MD\s*::\s*(?:pre|post)_reorder_mut\s*\(|\breorder_gc_prepared\s*=(?!=)", src):
+        name, _ = fn_at(spans, m.start())
+        if name not in wanted:
+            unparsed.append(desc(tag, "hook call / write of reorder_gc_prepared in fn " + name))
+    return rows
+
+
+def gen_hooks(read_):
+    unparsed, tabs = [], {}
+    for tag, path in (("index", "crates/oxidd-manager-index/src/manager.rs"), ("pointer", "crates/oxidd-manager-pointer/src/manager.rs")):
+        try:
+            tabs[tag] = hk_manager(read_(path), tag, unparsed)
+        except (Exception, SystemExit) as e:
+            tabs[tag] = []
+            unparsed.append(desc(tag + " manager", err_text(e)))
+    L = ["import OxiddModel.Generated.RulesHooks", GEN_HEADER, "namespace OxiddModel.Generated\n"]
+    for tag in ("index", "pointer"):
+        L.append(f"/-- `add_vars`, `add_named_vars`, `add_named_vars_from_map`, `gc`, `reorder` of `oxidd-manager-{tag}/src/manager.rs`: the calls of the subscriber hooks, the resize of the level tables, the flag `reorder_gc_prepared`, the counters, in execution order (the scope guard of `add_named_vars` where it is dropped), each with the condition it is under -/")
+        L.append(f"def hookRows_{tag} : List Hk.Row :=\n  [" + ",\n   ".join(tabs[tag]) + "]")
+    L.append("/-- constructs of these functions that the extractor does not recognise -/")
+    L.append(f"def hooksUnparsed : List String := {lean_strs(unparsed)}")
+    L.append("\nend OxiddModel.Generated")
+    return {"SrcHooks.lean": "\n".join(L) + "\n"}
+
+
+# ---- `apply_ite` prologues of the MTBDD, TDD and ZBDD rules ---------------------------------------------
+
+I2_V = ("f", "g", "h")
+
+
+def i2_res(txt):
+    """value of a `return <expr>;` of a prologue -> Lean `I2.Res`"""
+    t = txt.strip().rstrip(";").strip()
+    t = re.sub(r"^return\b", "", t).strip()
+    env = {"f": ("p", 0), "g": ("p", 1), "h": ("p", 2), "rec": ("rec", "seq")}
+    for nm in ("True", "False", "Unknown", "Empty", "Base"):  # `use <Terminal>::*`
+        env[nm] = ("path", "Terminal::" + nm)
+    v = fe_eval(t, env, FeCtx({}, {}, {}, ""))
+
+    def opnd(x):
+        if x[0] == "p" and x[1] in (0, 1, 2):
+            return "." + I2_V[x[1]]
+        raise Unparsed("operand of a shortcut result: " + repr(x))
+
+    if v[0] == "p":
+        return f"(.opnd {opnd(v)})"
+    if v[0] == "term":
+        return f'(.const "{v[1]}")'
+    if v[0] == "call" and len(v[4]) == 1 and not v[2]:
+        return f'(.un "{v[1]}" {opnd(v[4][0])})'
+    if v[0] == "call" and len(v[4]) == 2 and len(v[2]) <= 1:
+        return f'(.bin "{v[1]}" "{v[2][0] if v[2] else ""}" {opnd(v[4][0])} {opnd(v[4][1])})'
+    raise Unparsed("shortcut result " + txt[:60])
+
+
+def i2_row(atoms, res):
+    return f"⟨{lean_list(atoms)}, {res}⟩"
+
+
+def i2_single_return(blk):
+    sts = bc_stmts(blk)
+    if len(sts) != 1 or not re.match(r"return\b", sts[0]):
+        raise Unparsed("shortcut body is not a single return: " + blk[:60])
+    return sts[0]
+
+
+def i2_same_shortcuts(stmts, k, rows):
+    """leading `if a == b { return X; }` statements"""
+    while k < len(stmts):
+        m = re.match(r"if\s+\*?(f|g|h)\s*==\s*\*?(f|g|h)\s*(?=\{)", stmts[k])
+        if not m:
+            break
+        blk, end = block_after(stmts[k], m.end())
+        if stmts[k][end:].strip():
+            raise Unparsed("shortcut with else: " + stmts[k][:60])
+        rows.append(i2_row([f".same .{m.group(1)} .{m.group(2)}"], i2_res(i2_single_return(blk))))
+        k += 1
+    return k
+
+
+def i2_prologue_stmts(src, fn):
+    bodies = fn_bodies(src, fn)
+    if len(bodies) != 1:
+        raise Unparsed(f"fn {fn} not found")
+    body = bodies[0]
+    cut = re.search(r"(?:if\s+let\s+Some\(\w+\)\s*=\s*)?manager\s*\.\s*apply_cache\(\)", body)
+    if not cut:
+        raise Unparsed("no cache lookup in " + fn)
+    stmts = [s for s in bc_stmts(body[:cut.start()]) if not re.match(r"use\b|stat!|if\s+rec\.should_switch_to_sequential\(\)", s)]
+    return stmts, body
+
+
+def i2_mtbdd(src):
+    stmts, body = i2_prologue_stmts(src, "apply_ite")
+    rows = []
+    k = i2_same_shortcuts(stmts, 0, rows)
+    if k != len(stmts) - 1:
+        raise Unparsed("statements after the shortcuts: " + " ; ".join(s[:40] for s in stmts[k:]))
+    c = compact(stmts[k])
+    m = re.fullmatch(r"letfnode=matchmanager\.get_node\(&f\)\{(?:Node::)?Inner\((\w+)\)=>\1,(?:Node::)?Terminal\((\w+)\)=>\{let(\w+)=\2\.borrow\(\);returnOk\(if\3\.is_zero\(\)\{(.*?)\}else\{(.*?)\}\);\}\}", c)
+    if not m:
+        raise Unparsed("match on f: " + stmts[k][:80])
+    rows.append(i2_row(['.termIs .f "Zero"'], i2_res(m.group(4))))
+    rows.append(i2_row([".termAny .f"], i2_res(m.group(5))))
+    # what follows the lookup
+    cb = compact(body)
+    facts = []
+    facts.append(("level", "min3" if re.search(r"letlevel=flevel\.min\(glevel\)\.min\(hlevel\);|letlevel=(?:std::cmp::)?min\((?:std::cmp::)?min\(flevel,glevel\),hlevel\);", cb) else "?"))
+    cof = [x for x in I2_V if re.search(r"let\(" + x + "t," + x + r"e\)=if" + x + r"level==level\{collect_children\(" + x + r"node(?:\.unwrap_inner\(\))?\)\}else\{\(" + x + r"\.borrowed\(\)," + x + r"\.borrowed\(\)\)\}", cb)]
+    facts.append(("cofactors", " ".join(cof)))
+    rec = re.findall(r"apply_ite\(manager,(\w+),(\w+),(\w+)\)\?", cb)
+    facts.append(("recursion", " | ".join(" ".join(r) for r in rec)))
+    mr = re.search(r"let(\w+)=reduce\(manager,level,(\w+)\.into_edge\(\),(\w+)\.into_edge\(\),MTBDDOp::Ite\)\?", cb)
+    facts.append(("reduce", (mr.group(2) + " " + mr.group(3)) if mr else "?"))
+    return rows, facts
+
+
+TDD_VALS = ("True", "Unknown", "False")
+
+
+def i2_tdd(src):
+    stmts, body = i2_prologue_stmts(src, "apply_ite_rec")
+    rows = []
+    k = i2_same_shortcuts(stmts, 0, rows)
+    for x in I2_V:
+        if k >= len(stmts) or compact(stmts[k]) != f"let{x}node=manager.get_node(&{x})":
+            raise Unparsed(f"`let {x}node = manager.get_node(&{x})` expected: " + (stmts[k][:60] if k < len(stmts) else "end"))
+        k += 1
+    # `if let Node::Terminal(t) = fnode { .. }`
+    c = compact(stmts[k]) if k < len(stmts) else ""
+    m = re.fullmatch(r"ifletNode::Terminal\((\w+)\)=fnode\{let(\w+)=\*\1\.borrow\(\);if\2!=Unknown\{returnOk\(manager\.clone_edge\(&\*if\2==True\{(g|h)\}else\{(g|h)\}\)\);\}elseifgnode\.is_any_terminal\(\)&&hnode\.is_any_terminal\(\)\{return(.*?);\}\}", c)
+    if not m:
+        raise Unparsed("terminal case of f: " + (stmts[k][:80] if k < len(stmts) else "end"))
+    rows.append(i2_row(['.termIs .f "True"'], f"(.opnd .{m.group(3)})"))
+    rows.append(i2_row(['.termIs .f "False"'], f"(.opnd .{m.group(4)})"))
+    rows.append(i2_row(['.termIs .f "Unknown"', ".termAny .g", ".termAny .h"], i2_res(m.group(5))))
+    k += 1
+    st = stmts[k] if k < len(stmts) else ""
+    m = re.match(r"match\s*\(\s*manager\.get_node\(&g\)\s*,\s*manager\.get_node\(&h\)\s*\)\s*(?=\{)", st)
+    if not m or k != len(stmts) - 1:
+        raise Unparsed("match on (g, h): " + st[:80])
+    arms, end = block_after(st, m.end())
+    if st[end:].strip().strip(";"):
+        raise Unparsed("after the match on (g, h)")
+    for pat, res in it_split_arms(arms):
+        p = compact(pat).replace("Node::", "")
+        r = strip_outer(res.strip(), "{", "}").strip()
+        mt = re.fullmatch(r"\(Terminal\((\w+)\),Inner\(_\)\)", p)
+        mi = re.fullmatch(r"\(Inner\(_\),Terminal\((\w+)\)\)", p)
+        mtt = re.fullmatch(r"\(Terminal\((\w+)\),Terminal\((\w+)\)\)", p)
+        if mt or mi:
+            x, y, b = ("g", "h", mt.group(1)) if mt else ("h", "g", mi.group(1))
+            mm = re.match(r"match\s*\*" + b + r"\.borrow\(\)\s*(?=\{)", r)
+            if not mm:
+                raise Unparsed("arm " + pat + ": " + r[:60])
+            inner, e2 = block_after(r, mm.end())
+            if r[e2:].strip().strip(";,"):
+                raise Unparsed("after the inner match of " + pat)
+            for vp, vr in it_split_arms(inner):
+                v = compact(vp)
+                if v not in TDD_VALS:
+                    raise Unparsed("terminal value " + vp)
+                if compact(vr) in ("{}", ""):
+                    continue
+                rows.append(i2_row([f'.termIs .{x} "{v}"', f".inner .{y}"], i2_res(vr)))
+        elif mtt:
+            mm = re.match(r"match\s*\(\s*\*" + mtt.group(1) + r"\.borrow\(\)\s*,\s*\*" + mtt.group(2) + r"\.borrow\(\)\s*\)\s*(?=\{)", r)
+            if not mm:
+                raise Unparsed("arm " + pat + ": " + r[:60])
+            inner, e2 = block_after(r, mm.end())
+            if r[e2:].strip().strip(";,"):
+                raise Unparsed("after the inner match of " + pat)
+            for vp, vr in it_split_arms(inner):
+                v = compact(vp)
+                if v == "_" and compact(vr) in ("{}", ""):
+                    continue
+                mv = re.fullmatch(r"\((\w+),(\w+)\)", v)
+                if not mv or mv.group(1) not in TDD_VALS or mv.group(2) not in TDD_VALS:
+                    raise Unparsed("terminal values " + vp)
+                rows.append(i2_row([f'.termIs .g "{mv.group(1)}"', f'.termIs .h "{mv.group(2)}"'], i2_res(vr)))
+        elif p == "_" and compact(r) in ("{}", ""):
+            continue
+        else:
+            raise Unparsed("arm of the match on (g, h): " + pat)
+    cb = compact(body)
+    facts = []
+    facts.append(("level", "min3" if re.search(r"letlevel=(?:std::cmp::)?min\((?:std::cmp::)?min\(flevel,glevel\),hlevel\);", cb) else "?"))
+    cof = [x for x in I2_V if re.search(r"let\(" + x + "0," + x + "1," + x + r"2\)=if" + x + r"level==level\{collect_children\(" + x + r"node\.unwrap_inner\(\)\)\}else\{\(" + x + r"\.borrowed\(\)," + x + r"\.borrowed\(\)," + x + r"\.borrowed\(\)\)\}", cb)]
+    facts.append(("cofactors", " ".join(cof)))
+    rec = re.findall(r"apply_ite_rec\(manager,(\w+),(\w+),(\w+)\)\?", cb)
+    facts.append(("recursion", " | ".join(" ".join(r) for r in rec)))
+    mr = re.search(r"let(\w+)=reduce\(manager,level,(\w+)\.into_edge\(\),(\w+)\.into_edge\(\),(\w+)\.into_edge\(\),TDDOp::Ite,?\)\?", cb)
+    facts.append(("reduce", " ".join(mr.group(i) for i in (2, 3, 4)) if mr else "?"))
+    return rows, facts
+
+
+def i2_zbdd(src):
+    stmts, body = i2_prologue_stmts(src, "apply_ite")
+    rows, facts = [], []
+    k = i2_same_shortcuts(stmts, 0, rows)
+    seen_nodes = []
+    while k < len(stmts):
+        c = compact(stmts[k])
+        m = re.fullmatch(r"let(f|g|h)node=manager\.get_node\(&\1\)", c)
+        if m:
+            seen_nodes.append(m.group(1))
+            k += 1
+            continue
+        if re.fullmatch(r"let(f|g|h)level=\1node\.level\(\)", c):
+            k += 1
+            continue
+        m = re.match(r"if\s+(f|g|h)node\.is_terminal\(&Empty\)\s*(?=\{)", stmts[k])
+        if m:
+            if m.group(1) not in seen_nodes:
+                raise Unparsed("terminal test before get_node: " + stmts[k][:60])
+            blk, end = block_after(stmts[k], m.end())
+            if stmts[k][end:].strip():
+                raise Unparsed("shortcut with else: " + stmts[k][:60])
+            rows.append(i2_row([f'.termIs .{m.group(1)} "Empty"'], i2_res(i2_single_return(blk))))
+            k += 1
+            continue
+        break
+    # the tautology at the top level of the three operands
+    rest = [compact(s) for s in stmts[k:k + 3]]
+    if rest[:3] != ["letghlevel=std::cmp::min(glevel,hlevel)", "letlevel=std::cmp::min(flevel,ghlevel)", "lettautology=manager.zbdd_cache().tautology(level)"]:
+        raise Unparsed("level / tautology bindings: " + " ; ".join(rest))
+    facts.append(("tautologyLevel", "min(flevel, min(glevel, hlevel))"))
+    k += 3
+    while k < len(stmts):
+        m = re.match(r"if\s+\*(f|g|h)\s*==\s*\*tautology\s*(?=\{)", stmts[k])
+        if not m:
+            raise Unparsed("statement before the cache lookup: " + stmts[k][:60])
+        blk, end = block_after(stmts[k], m.end())
+        if stmts[k][end:].strip():
+            raise Unparsed("shortcut with else: " + stmts[k][:60])
+        rows.append(i2_row([f".taut .{m.group(1)}"], i2_res(i2_single_return(blk))))
+        k += 1
+    return rows, facts
+
+
+def gen_ite2(read_):
+    unparsed, out = [], {}
+    for kind, path, fn in (("mtbdd", "crates/oxidd-rules-mtbdd/src/apply_rec.rs", i2_mtbdd),
+                           ("tdd", "crates/oxidd-rules-tdd/src/apply_rec.rs", i2_tdd),
+                           ("zbdd", "crates/oxidd-rules-zbdd/src/apply_rec.rs", i2_zbdd)):
+        try:
+            out[kind] = fn(re.sub(r"#!?\[[^\]]*\]", "", strip_debug_asserts(strip_comments(read_(path)))))
+        except (Exception, SystemExit) as e:
+            out[kind] = ([], [])
+            unparsed.append(desc(f"apply_ite ({kind})", err_text(e)))
+    L = ["import OxiddModel.Generated.RulesIte2", GEN_HEADER, "namespace OxiddModel.Generated\n"]
+    for kind in ("mtbdd", "tdd", "zbdd"):
+        rows, facts = out[kind]
+        L.append(f"/-- `apply_ite` of the {kind.upper()} rules: the shortcuts tested before the cache lookup, in source order (a decision list: a row is reached only if no earlier row fired) -/")
+        L.append(f"def ite2Rows_{kind} : List I2.Row :=\n  [" + ",\n   ".join(rows) + "]")
+        L.append(f"/-- … and facts about what surrounds / follows them -/")
+        L.append(f"def ite2Facts_{kind} : List (String × String) := " + lean_list([f'("{a}", {lstr(b)})' for a, b in facts]))
+    L.append("/-- constructs of these `apply_ite` functions that the extractor does not recognise -/")
+    L.append(f"def ite2Unparsed : List String := {lean_strs(unparsed)}")
+    L.append("\nend OxiddModel.Generated")
+    return {"SrcIte2.lean": "\n".join(L) + "\n"}
+
+
 def lean_list(xs):
     return "[" + ", ".join(xs) + "]"
 
@@ -3112,6 +4338,8 @@ def main():
         files.update(gen(read))
     for gen in PART3:
         files.update(gen(read))
+    for gen in PART4:
+        files.update(gen(read))
     for name in sorted(files):
         path = os.path.join(GEN_DIR, name)
         old = open(path, encoding="utf-8").read() if os.path.exists(path) else None
@@ -3124,6 +4352,7 @@ def main():
 
 PART2 = [gen_mtbdd, gen_i64, gen_bcdd_kernels, gen_zbdd_apply, gen_reduce]
 PART3 = [gen_atomicity, gen_ite, gen_epoch, gen_keys, gen_f64]
+PART4 = [gen_frontends, gen_keys2, gen_hooks, gen_ite2]
 
 
 if __name__ == "__main__":
